@@ -59,11 +59,13 @@ impl<C: Clock> Clock for OverlayClock<C> {
         Ok(now_local)
     }
     fn step_clock(&mut self, offset: Duration) -> Result<Time, Self::Error> {
-        self.last_sync = self.roclock.now();
-        let multiplier = 1_000_000f64 + self.freq_scale_ppm_diff;
-        let reciprocal = 1_000_000f64 / multiplier;
-        self.shift += offset * reciprocal;
-        Ok(self.time_from_underlying(self.last_sync))
+        // re-anchor like set_frequency does, so that the frequency correction
+        // accrued since the last sync is kept and the reading jumps by `offset`
+        let now_roclock = self.roclock.now();
+        let now_local = self.time_from_underlying(now_roclock) + offset;
+        self.shift = now_local - now_roclock;
+        self.last_sync = now_roclock;
+        Ok(now_local)
     }
     fn set_properties(
         &mut self,
